@@ -494,6 +494,40 @@ def qrQ (a : CMat) : CMat := Id.run do
 
 end Num
 
+/-! ## `_ABk.py`: symmetric-extension Hermitian manifolds (pure index bookkeeping, exact over any ring) -/
+namespace ABk
+variable {R : Type} [Zero R] [Add R] [Mul R] [Neg R]
+
+/-- `ABkHermitian.forward` (`_ABk.py:21-25`): `(1j*[0, θ_skew])[index_skew] * factor_skew + θ_sym[index_sym]`.
+The three tables come from `numqi.group.symext.get_ABk_symmetry_index` (a contract: the harness checks on the live tables the
+hypotheses under which the theorems hold). -/
+def hermitian (I : R) (idxSym idxSkew : Nat → Nat → Nat) (fac : Nat → Nat → R) (θsym θskew : Nat → R) (r c : Nat) : R :=
+  (I * (if idxSkew r c = 0 then 0 else θskew (idxSkew r c - 1))) * fac r c + θsym (idxSym r c)
+
+/-- digits of `r` in the mixed radix `[dimA, dimB, …, dimB]` (most significant first) with the `B` digits `i`, `j` exchanged:
+the row permutation of `ABk_permutate(mat, i, j, dimA, dimB, kext)` (`_ABk.py:58-64`), i.e. `ret[r,c] = mat[perm r, perm c]`. -/
+def permIndex (dimB kext i j r : Nat) : Nat :=
+  let digit (q : Nat) : Nat := r / dimB ^ (kext - 1 - q) % dimB      -- digit of copy B_q, q = 0..kext-1
+  let a := r / dimB ^ kext
+  let q' (q : Nat) : Nat := if q = i then j else if q = j then i else q
+  a * dimB ^ kext + ((List.range kext).map fun q => digit (q' q) * dimB ^ (kext - 1 - q)).sum
+
+/-- strict upper triangle of a `d × d` matrix, row-major (`torch.triu_indices(d,d,offset=1)`) -/
+def triuStrict (d : Nat) : List (Nat × Nat) :=
+  (List.range d).flatMap fun r => (List.range' (r + 1) (d - (r + 1))).map fun c => (r, c)
+
+/-- `ABk2localHermitian.forward` (`_ABk.py:43-49`): `(coeff_sym @ M[triu])[index_sym] + 1j (coeff_skew @ Mᵀ[triu₁])[index_skew]`
+for the `d × d` real parameter matrix `M` (`d = dimA·dimB`). -/
+def twoLocal (I : R) (d : Nat) (coefS : Nat → Nat → R) (idxS : Nat → Nat → Nat) (coefK : Nat → Nat → R) (idxK : Nat → Nat → Nat)
+    (M : Nat → Nat → R) (r c : Nat) : R :=
+  let p0 : List R := (triuPairs d).map fun x => M x.1 x.2
+  let p1 : List R := (triuStrict d).map fun x => M x.2 x.1
+  let dotS := ((List.range p0.length).map fun q => coefS (idxS r c) q * p0.getD q 0).sum
+  let dotK := ((List.range p1.length).map fun q => coefK (idxK r c) q * p1.getD q 0).sum
+  dotS + I * dotK
+
+end ABk
+
 /-! ## C02: parameter counts of the module constructors and manifold dimensions -/
 namespace Count
 
